@@ -310,7 +310,6 @@ def run_unit(unit, rec):
         if len(hist) >= 2 and len(hist) < depth:
             for i in range(len(OPS)):
                 queue.append(hist + [i])
-    rec.sample(dict(prefix=[list(OPS[i]) for i in prefix], states=len(seen)), cap=1)
 
 
 def _visit(hist, rec, seen):
@@ -476,6 +475,12 @@ def _visit(hist, rec, seen):
                    observed=(raw if st == "ok" else cv), expected=(raw4 if st4 == "ok" else cv4), script=_script(hist))
         if st == "exc":
             rec.count("query-exception:%s:%s" % (q, cv.split(":")[0]))
+    if len(hist) >= 3 and registered:
+        def short(a):
+            (st, cv, raw), _ = a
+            return (np.asarray(raw).ravel()[:4].tolist() if (st == "ok" and not isinstance(raw, tuple)) else (st if st == "ok" else cv))
+        rec.sample(dict(history=hname, state_is_new=True, answers={q: short(ans1[q]) for q in ("system_relative_capture", "in_hull", "sample_in_gamut") if q in ans1},
+                        oracles=["reference model", "repeat", "reversed battery", "interleaved queries", "fresh object from registered values"]), cap=2)
     return key
 
 
